@@ -12,7 +12,26 @@ def regen(base, rp):
     return ["meta", "regen", base, rp]
 
 
+# the property as a theorem of the executable models, checked by TLC on every generated document (a violation there is a defect of
+# the specification - or of my reading of the property - and stops the check as infrastructure trouble, never as a verdict)
+LEMMAS = {"c09": ("QuoteLemma ListLemma", "QuoteHtmlLemma ListHtmlLemma"),
+          "c14": ("FinalNewlineLemma", "EolHtmlLemma FinalNewlineHtmlLemma"),
+          "c16": ("ReparseLemma", "ReparseHtmlLemma")}
+
+
+def run_lemmas(ctx, fam):
+    from checks import blocksfam, fullfam
+    blk, full = LEMMAS[fam]
+    jobs = [blocksfam.lemma_job(fam + "_lemmas", blk, ctx.tier)]
+    sets = ["fullA", "fullB", "fullC"] + (["fullD"] if ctx.tier == "thorough" and fam != "c09" else [])
+    for s in sets:
+        jobs.append(dict(module="Full", cfg_text=fullfam.cfg(s, 2).replace("CONSTRAINT Emit\n", "INVARIANTS %s\n" % full),
+                         name="Full_%s_lemmas_%s" % (fam, s), workers=8, timeout=6000))
+    ctx.tlc_many(jobs, parallel=2)
+
+
 def run(ctx, fam):
+    run_lemmas(ctx, fam)
     tracefam.run(ctx, "Meta", gen(fam), regen, CONSTS, nsh=16, workers=1, parallel=16)
 
 
